@@ -52,6 +52,7 @@ def main():
             jobs.append((cz, data, [0], out, rc, subs))
     ml, _, _ = vlib.run_lines(drv, ["sess %s %s %s" % (cfg_args(c), vlib.hx(d), ",".join("%d:-" % e for e in ex)) for c, d, ex, _, _, _ in jobs])
     fails, mism = [], []
+    import gen_common; gen_common.translator_selfcheck(ck, rb, mism)
     # directed: an unreadable / truncated compiled extra list.  The lookup then fails; whatever the server answers,
     # a recipient whose domain is on no list must not get 250 and nothing may be handed to the queue for it.
     cm = dict(gen_cfg(rng), rcpthosts=[b"ok.dom"], morercpthosts=[b"more.dom", b".more.dom"], badmailfrom=None, relayclient=None, databytes=0, localiphost=None)
